@@ -83,6 +83,7 @@ def run(S):
     final_hop(S, D)
     go_onchain(S, D)
     claim_deadline(S, D)
+    early_fail_back(S, D)
     from .C02 import forward_admission_manager
     forward_admission_manager(S, D, 'C08.e')
 
@@ -251,6 +252,148 @@ def go_onchain(S, D):
                     'in time, and not early: with the preimage in hand the node is on chain while at least 36 blocks remain before the payer can time the HTLC out; an expired outbound HTLC is taken on chain from the third block after expiry on, never before (the peer gets its grace period to fail it off chain)', [b])
             S.witness('C08.g.witness', E, pre + [z3.Not(outbound), known], closes)
             S.validate('C08.g.validate', E, b, n=10, extra_vectors=[(1, 0, 1000, 1000 + k) for k in range(0, 6)] + [(0, 1, 1000, 1000 - 40 + k) for k in range(0, 8)] + [(0, 0, 1000, 1000 - 38), (0, 0, 1000, 1000 - 30)])
+
+
+def early_fail_back(S, D):
+    """C08.i: the early fail-back of `ChannelMonitorImpl::block_confirmed` - once a channel is closed, an HTLC we forwarded
+    over it that is still unresolved is failed back upstream when the INBOUND HTLC is within LATENCY_GRACE_PERIOD_BLOCKS of
+    its expiry, so that the upstream peer does not close that channel too. (a) which HTLC lists are scanned: region from
+    the `no_further_updates_allowed()` test to the head of the scan loop, the look-ups in
+    `counterparty_claimable_outpoints` recording stubs: exactly two look-ups, one under the CURRENT and one under the
+    PREVIOUS counterparty commitment txid, each iff that txid is known (an HTLC may survive only in the previous,
+    not yet revoked commitment). (b) one iteration of the scan loop from an arbitrary loop-head state."""
+    import re
+    ids = ['C08.i.scans_current_and_previous', 'C08.i.fail_back_iff', 'C08.i.nopanic', 'C08.i.witness']
+    if all(S._skip(o) for o in ids):
+        return
+    f = S.fn('block_confirmed', contains='channelmonitor.rs')
+    calls = lambda rx: [b for b, (bd, t) in f.blocks.items() if t[0] == 'call' and re.search(rx, str(t[2]))]
+    gets = calls(r'HashMap::<(?:bitcoin::)?Txid, (?:std::vec::)?Vec<\((?:chan_utils::)?HTLCOutputInCommitment, .*>::get::<')
+    nfu = calls(r'no_further_updates_allowed$')
+    heads = calls(r'^<(?:std::iter::)?Chain<(?:std::iter::)?Chain<(?:std::iter::)?Chain<.* as Iterator>::next$')
+    if len(gets) != 2 or len(heads) != 1 or not nfu:
+        raise X.Unsupported('block_confirmed: %d look-ups, %d scan loops, %d closed-channel tests' % (len(gets), len(heads), len(nfu)))
+    head = heads[0]
+    # the closed-channel test that guards the scan: the one from which the look-ups are reached without passing another
+    probe = X.FnRun(S.engine(), f, [X.Ref(0)] + [X.Opaque('a')] * (len(f.params) - 1), True, {})
+    succ, rpo, back, encl = probe.analyse_cfg()
+
+    def reaches(a, target, avoid):
+        seen, todo = set(), [a]
+        while todo:
+            b = todo.pop()
+            if b in seen or (b in avoid and b != a):
+                continue
+            seen.add(b)
+            if b == target:
+                return True
+            todo.extend(succ.get(b, ()))
+        return False
+    starts = [b for b in nfu if reaches(b, gets[0], set(nfu) | {head})]
+    if len(starts) != 1:
+        raise X.Unsupported('block_confirmed: %d candidate region starts' % len(starts))
+    MI = D.struct_fields('ChannelMonitorImpl')
+    FS = D.struct_fields('FundingScope', hint='channelmonitor')
+    # ---- (a) which lists are scanned
+    E = S.engine(unwind=1)
+    mem = {}
+    me = E.sym('self', f.params[0][1], mem)
+    looked = []
+
+    def origin(v, mem_, guard):
+        while isinstance(v, X.Ref):
+            v = E.read_path(mem_[v.cell], v.path, mem_, guard, 'key')
+        return getattr(v, 'base', None) or repr(v)
+
+    def h_get(E_, m, func, argv, guard, mem_, dty, caller):
+        k = len(looked)
+        looked.append((X.zbool(guard), origin(argv[1], mem_, guard)))
+        return X.En('Option', z3.If(z3.Bool('env.list%d_known' % k), 1, 0), {1: [X.Opaque('htlc list %d' % k)]})
+    for rx, h in [
+        (r'HashMap::<(?:bitcoin::)?Txid, .*HTLCOutputInCommitment.*>::get::<', h_get),
+        (r'no_further_updates_allowed$', lambda *a: X.B(True)),
+        (r'Option::<\((?:bitcoin::)?Txid, .*\)>::map::<&(?:\w+::)*FundingScope, ', lambda *a: X.En('Option', z3.If(z3.Bool('env.alternative_funding'), 1, 0), {1: [X.Opaque('confirmed alternative funding scope')]})),
+        (r'Option::<&(?:\w+::)*FundingScope>::unwrap_or$', lambda *a: X.Opaque('confirmed funding scope')),
+        (r' as Iterator>::(flatten|chain::<.*|map::<.*)$', lambda *a: X.Opaque('adaptor')),
+        (r' as IntoIterator>::into_iter$', lambda *a: X.Opaque('iterator')),
+        (r'slice::<impl \[.*\]>::iter$', lambda *a: X.Opaque('iterator')),
+        (r'HolderCommitmentTransaction as (?:std::ops::)?Deref>::deref$|CommitmentTransaction::nondust_htlcs$|Vec<.*> as (?:std::ops::)?Deref>::deref$', lambda *a: X.Opaque('holder htlcs')),
+    ]:
+        E.models.insert(0, (re.compile(rx), h))
+    run = X.FnRun(E, f, [me] + [X.Opaque('arg%d' % k) for k in range(1, len(f.params))], True, mem)
+    E.depth += 1
+    run.run(start_bb=starts[0], init={}, stop_bbs=(head,))
+    E.depth -= 1
+    reached = X.zbool(E.merge_mem(run.stop_states[head])[0]) if run.stop_states.get(head) else z3.BoolVal(False)
+    import os
+    if os.environ.get('C08I_DEBUG'):
+        print('looked', looked); print('unsup', [w[:300] for g, w in E.unsupported])
+    fund = E.read_path(mem[me.cell], (('f', MI.index('funding'), 'channelmonitor::FundingScope'),), mem, True, 'spec')
+    cur = E.read_path(fund, (('f', FS.index('current_counterparty_commitment_txid'), 'Option<bitcoin::Txid>'),), mem, True, 'spec')
+    prv = E.read_path(fund, (('f', FS.index('prev_counterparty_commitment_txid'), 'Option<bitcoin::Txid>'),), mem, True, 'spec')
+    cur_o = origin(E.en_payload(cur, 'Some', 1, 0, 'bitcoin::Txid', mem, 'spec'), mem, True)
+    prv_o = origin(E.en_payload(prv, 'Some', 1, 0, 'bitcoin::Txid', mem, 'spec'), mem, True)
+    cur_some, prv_some = X.zint(cur.d) == 1, X.zint(prv.d) == 1
+    wiring = len(looked) == 2 and looked[0][1] == cur_o and looked[1][1] == prv_o and cur_o != prv_o
+    claim_a = z3.And(reached, z3.BoolVal(bool(wiring)), *([looked[0][0] == cur_some, looked[1][0] == prv_some] if len(looked) == 2 else []))
+    bat = Binding('early_fail_back_battery', [z3.IntVal(0)], [z3.If(claim_a, 0, 1)], parse=lambda t: [0 if t[0] == '0' else 1], line_fn=lambda v: '0',
+                  which='oracle_tu', via_solver=True, domain=[(0, 0)], panic=False)
+    S.prove(ids[0], E, [], claim_a,
+            "on a closed channel the early fail-back scans, besides our own commitment, the HTLCs recorded under the counterparty's CURRENT commitment txid and those under its PREVIOUS one - one look-up each, made iff that txid is known (an HTLC removed from the current commitment but still in the previous, unrevoked one must be failed back in time too)",
+            [bat], bounds='region of block_confirmed from the closed-channel test to the head of the scan loop; pre-state arbitrary (havocked); look-ups recorded by the origin of their key')
+    # ---- (b) one iteration of the scan
+    E2 = S.engine(unwind=1)
+    mem2 = {}
+    me2 = E2.sym('self', f.params[0][1], mem2)
+    htlc = E2.sym('htlc', '&ln::chan_utils::HTLCOutputInCommitment', mem2)
+    has_src, exp_some, dup, fresh = z3.Bool('env.has_source'), z3.Bool('env.expiry_known'), z3.Bool('env.duplicate_event'), z3.Bool('env.not_failed_back_yet')
+    expiry = E2.sym('env.inbound_expiry', 'u32')
+    height = E2.sym('height', 'u32')
+    pushed = []
+    src = X.Opaque('source')
+    for rx, h in [
+        (r' as Iterator>::next$', lambda *a: X.En('Option', 1, {1: [X.Tup([htlc, X.En('Option', z3.If(has_src, 1, 0), {1: [src]})])]})),
+        (r'HTLCSource>::inbound_htlc_expiry$', lambda *a: X.En('Option', z3.If(exp_some, 1, 0), {1: [expiry]})),
+        (r' as Iterator>::any::<', lambda *a: X.B(dup)),
+        (r'slice::<impl \[.*\]>::iter$', lambda *a: X.Opaque('iterator')),
+        (r'Vec<.*> as (?:std::ops::)?Deref>::deref$', lambda *a: X.Opaque('events')),
+        (r'SentHTLCId::from_source$', lambda *a: X.Opaque('htlc id')),
+        (r'HashSet::<.*SentHTLCId.*>::insert$', lambda *a: X.B(fresh)),
+        (r'HTLCSource as Clone>::clone$', lambda *a: X.Opaque('source copy')),
+        (r'Vec::<.*MonitorEvent>::push$', lambda E_, m, func, argv, guard, mem_, dty, caller: (pushed.append((X.zbool(guard), argv[1])), X.UNIT)[1]),
+    ]:
+        E2.models.insert(0, (re.compile(rx), h))
+    run2 = X.FnRun(E2, f, [me2] + [X.Opaque('arg%d' % k) for k in range(1, len(f.params))], True, mem2)
+    loc = lambda nm: int(f.debug[nm].lstrip('_'))
+    E2.depth += 1
+    run2.run(start_bb=head, init={loc('height'): height})
+    E2.depth -= 1
+    cont = X.zbool(E2.merge_mem(run2.cut_states)[0]) if run2.cut_states else z3.BoolVal(False)
+    n_push = sum([z3.If(g, 1, 0) for g, v in pushed], z3.IntVal(0))
+    spec = z3.And(has_src, exp_some, expiry.t <= height.t + LATENCY_GRACE_PERIOD_BLOCKS, z3.Not(dup), fresh)
+    pre2 = [height.t < (1 << 31)]
+    HO = D.struct_fields('HTLCOutputInCommitment')
+    amt = E2.read_path(mem2[htlc.cell], (('f', HO.index('amount_msat'), 'u64'),), mem2, True, 'spec').t
+    ok_event = z3.BoolVal(True)
+    if len(pushed) == 1:
+        ev = pushed[0][1]
+        VI = D.variant_index('MonitorEvent', 'HTLCEvent')
+        up = E2.en_payload(ev, 'HTLCEvent', VI, 0, 'HTLCUpdate', mem2, 'spec')
+        HU = D.struct_fields('HTLCUpdate')
+        pre_ = E2.read_path(up, (('f', HU.index('payment_preimage'), 'Option<PaymentPreimage>'),), mem2, True, 'spec')
+        val = E2.read_path(up, (('f', HU.index('htlc_value_satoshis'), 'u64'),), mem2, True, 'spec')
+        if isinstance(val, X.En):
+            ok_event = z3.And(X.zint(pre_.d) == 0, X.zint(val.d) == 1, E2.en_payload(val, 'Some', 1, 0, 'u64', mem2, 'spec').t == amt / 1000)
+        else:
+            ok_event = z3.And(X.zint(pre_.d) == 0, X.zint(val.t) == amt / 1000)
+    claim_b = z3.And(cont, n_push == z3.If(spec, 1, 0), z3.Implies(spec, ok_event), z3.BoolVal(len(pushed) == 1))
+    bat2 = Binding('early_fail_back_battery', [z3.IntVal(0)], [z3.If(claim_b, 0, 1)], parse=lambda t: [0 if t[0] == '0' else 1], line_fn=lambda v: '0',
+                   which='oracle_tu', via_solver=True, domain=[(0, 0)], panic=False)
+    S.prove(ids[1], E2, pre2, claim_b,
+            'one scanned HTLC: a failure (no preimage, the HTLC\'s value in sat) is queued for the upstream channel iff the HTLC was forwarded (has a source with an inbound expiry), that expiry is at most LATENCY_GRACE_PERIOD_BLOCKS = 3 above the current height, no event for the same source is pending and it was not failed back before; then the scan goes on',
+            [bat2], bounds='one iteration from an arbitrary loop-head state; heights < 2^31; iterator, source accessors, the pending-event search and the failed-back set stubbed')
+    S.no_panic(ids[2], E2, pre2, 'no overflow (saturating_add)', [])
+    S.witness(ids[3], E2, pre2 + [spec], n_push == 1)
 
 
 def claim_deadline(S, D):
